@@ -9,6 +9,7 @@ import (
 )
 
 func init() {
+	vfRegister("VfC06_heldAcrossElection", VfC06_heldAcrossElection)
 	vfRegister("VfC06_doModify", VfC06_doModify)
 	vfRegister("VfC06_handover", VfC06_handover)
 	vfRegister("VfC06_halfClose", VfC06_halfClose)
@@ -214,5 +215,52 @@ func VfC06_halfClose() {
 	n := len(st.sent) // what the stream carried when the RPC returned
 	vfAssert(err == nil, "C06:clean-session-ends-ok")
 	vfAssert(n == 3, "C06:every-answer-written-before-the-rpc-returns")
+	vfReach("end")
+}
+
+// VfC06_heldAcrossElection: an operation of the primary is held (group waiting for a next-hop); the SAME session
+// then announces an election id that is higher than or equal to its own (it stays the primary), and finally
+// sends the operation that resolves the held one, stamped with the id it announced last: both operations are
+// answered - the held one is neither lost nor answered twice - and both are installed.
+func VfC06_heldAcrossElection() {
+	s, id := vfPrimaryServer()
+	fib := vfBool("fib-ack")
+	s.cs["A"].params.FIBAck = fib
+	member := vfU64("member")
+	vfAssume(member != 0)
+	vfAssume(member != 1) // next-hop 1 is installed: the group must wait for another one
+	send := func(ops ...*spb.AFTOperation) ([]*spb.AFTResult, int) {
+		resCh, errCh := make(chan *spb.ModifyResponse, 64), make(chan error, 16)
+		s.doModify("A", ops, resCh, errCh)
+		return vfDrain(resCh, errCh)
+	}
+	r1, e1 := send(vfNHGOp(10, DefaultNetworkInstanceName, 50, member, id))
+	vfAssert(len(r1) == 0 && e1 == 0, "C06:operation-with-a-missing-reference-is-held-not-answered")
+	// the primary re-announces: any id >= its current one
+	nid := &spb.Uint128{High: vfU64("new.hi"), Low: vfU64("new.lo")}
+	vfAssume(ge128(nid.High, nid.Low, id.High, id.Low))
+	resp, err := s.runElection("A", nid)
+	vfAssert(err == nil && resp != nil, "C06:re-announcement-accepted")
+	vfAssert(s.curMaster == "A", "C06:re-announcing-primary-stays-primary")
+	r2, e2 := send(vfNHOp(11, DefaultNetworkInstanceName, member, nid))
+	vfAssert(e2 == 0, "C06:no-rpc-error")
+	n10, n11, nfail := 0, 0, 0
+	for _, x := range r2 {
+		if x.Status == spb.AFTResult_RIB_PROGRAMMED {
+			if x.Id == 10 {
+				n10++
+			}
+			if x.Id == 11 {
+				n11++
+			}
+		}
+		if x.Status == spb.AFTResult_FAILED {
+			nfail++
+		}
+	}
+	vfAssert(n11 == 1, "C06:resolving-operation-acknowledged-once")
+	vfAssert(n10 == 1, "C06:held-operation-answered-once-when-it-becomes-resolvable")
+	vfAssert(nfail == 0, "C06:nothing-failed")
+	vfAssert(len(s.masterRIB.VfPendingIDs()) == 0, "C06:nothing-left-held")
 	vfReach("end")
 }
